@@ -142,9 +142,14 @@ func (w *World) Step(pre *Snapshot, op Op) StepOut {
 	if op.Kind == "fork_compact" {
 		return w.forkCompact(pre, op)
 	}
+	if op.Kind == "fault" {
+		return w.stepFault(pre, op)
+	}
 	out := w.stepMain(pre, op)
 	if w.Twin != nil && out.Post != nil {
 		out.Viol = append(out.Viol, w.stepTwin(op, &out)...)
+	} else if w.Twin != nil {
+		out.Viol = append(out.Viol, Violation{w.TwinProp, fmt.Sprintf("store unreadable after `%s` (exit %d): %s", strings.Join(out.Cmd.Args, " "), out.Exit, clip(out.Stderr, 200))})
 	}
 	return out
 }
@@ -849,7 +854,7 @@ func (w *World) forkCompact(pre *Snapshot, op Op) StepOut {
 	for id := range w.Pruned {
 		tw.Pruned[id] = true
 	}
-	w.Twin, w.TouchedSince = tw, map[string]bool{}
+	w.Twin, w.TouchedSince, w.TwinProp = tw, map[string]bool{}, "C05"
 	cmd := tw.Build(Op{Kind: "compact"})
 	out.Cmd = cmd
 	res := Run(cmd)
@@ -907,7 +912,13 @@ func (w *World) forkCompact(pre *Snapshot, op Op) StepOut {
 func (w *World) stepTwin(op Op, main *StepOut) []Violation {
 	tw := w.Twin
 	var out []Violation
-	bad := func(f string, a ...any) { out = append(out, Violation{"C05", fmt.Sprintf(f, a...)}) }
+	what := "compacted"
+	if w.TwinProp == "C03" {
+		what = "never-crashed"
+	}
+	bad := func(f string, a ...any) {
+		out = append(out, Violation{w.TwinProp, strings.ReplaceAll(fmt.Sprintf(f, a...), "compacted", what)})
+	}
 	tw.writeFiles(op.Files)
 	cmd := tw.Build(op)
 	var release func()
@@ -919,7 +930,7 @@ func (w *World) stepTwin(op Op, main *StepOut) []Violation {
 		release()
 	}
 	if res.OK() != main.Accepted {
-		bad("after compaction `%s` exits %d, without compaction %d (%s)", strings.Join(cmd.Args, " "), res.Code, main.Exit, clip(res.Stderr, 200))
+		bad("on the compacted store `%s` exits %d, on the other %d (%s)", strings.Join(cmd.Args, " "), res.Code, main.Exit, clip(res.Stderr, 200))
 		return out
 	}
 	snapT, err := TakeSnapshot(tw.Root)
